@@ -1265,6 +1265,17 @@ func buildImage(r, ax *Rng) *built {
 	if bkBIOS {
 		front = append(front, &region{name: "bkb", size: 16 + 24*nbkB})
 	}
+	// 0..3 further, different BIOS directories ("bkx"): with several EFS pointers leading to
+	// parseable directories the first one in pointer order is level 1, whatever the others hold
+	nAlt := 0
+	if hasB1 && !scanOnly && ax.Chance(2, 5) {
+		nAlt = ax.Pick(1, 1, 2, 3)
+	}
+	nAltEnt := make([]int, nAlt)
+	for i := range nAltEnt {
+		nAltEnt[i] = ax.Pick(0, 1, 2, 3)
+		front = append(front, &region{name: fmt.Sprintf("bkx%d", i), size: 16 + 24*nAltEnt[i]})
+	}
 	regs = append(front, regs...)
 	cur := 1 + r.Intn(40)
 	at := map[string]*region{}
@@ -1444,9 +1455,43 @@ func buildImage(r, ax *Rng) *built {
 		binary.LittleEndian.PutUint32(efs[20:], []uint32{0xFFFFFFFF, 0xFFFFFFF0, 0x80000000}[ax.Intn(3)])
 	}
 	biosByPointer := false
+	altDirs := map[int64]bool{}
 	if bt.b1 >= 0 && !scanOnly && r.Chance(4, 5) {
-		binary.LittleEndian.PutUint32(efs[slots[r.Intn(4)]:], uint32(bt.b1))
+		bi := r.Intn(4)
+		binary.LittleEndian.PutUint32(efs[slots[bi]:], uint32(bt.b1))
 		biosByPointer = true
+		// the other directories behind the remaining pointers, before or after the first one;
+		// the unusable values drawn above stay in the slots not taken
+		free := []int{}
+		for k := range slots {
+			if k != bi {
+				free = append(free, k)
+			}
+		}
+		for i := 0; i < nAlt; i++ {
+			var recs [][]byte
+			for j := 0; j < nAltEnt[i]; j++ {
+				recs = append(recs, biosRec(biosTypePool[ax.Intn(len(biosTypePool))], uint8(ax.U64()), uint8(ax.U64()), uint8(ax.U64()),
+					uint32(ax.Pick(0, 4, 16)), uint64(1+ax.Intn(total)), ax.U64()))
+			}
+			ck := uint32(specBIOSCookie)
+			if ax.Chance(1, 4) {
+				ck = specBIOSL2Cookie // the parser takes either cookie behind a pointer
+			}
+			off := at[fmt.Sprintf("bkx%d", i)].off
+			copy(img[off:], mkTable(ck, uint32(ax.U64()), uint32(nAltEnt[i]), recs))
+			k := ax.Intn(len(free))
+			binary.LittleEndian.PutUint32(efs[slots[free[k]]:], uint32(off))
+			free = append(free[:k], free[k+1:]...)
+			altDirs[int64(off)] = true
+		}
+		if bt.b2 >= 0 && len(free) > 0 && ax.Chance(1, 5) { // the level-2 directory directly behind a pointer as well
+			binary.LittleEndian.PutUint32(efs[slots[free[ax.Intn(len(free))]]:], uint32(bt.b2))
+			altDirs[int64(bt.b2)] = true
+		}
+		if len(free) > 0 && ax.Chance(1, 6) { // the same directory behind two pointers
+			binary.LittleEndian.PutUint32(efs[slots[free[ax.Intn(len(free))]]:], uint32(bt.b1))
+		}
 	}
 	bt.efsOff = put("efs", efs)
 	bt.base = anchors[r.Intn(6)] - uint64(bt.efsOff)
@@ -1473,6 +1518,8 @@ func buildImage(r, ax *Rng) *built {
 	var exp []string
 	for i, o := range []int{bt.p1, bt.p2, bt.b1, bt.b2} {
 		switch {
+		case i == 2 && altDirs[ref[2]]: // an earlier pointer leads to another laid-out directory: that one
+			exp = append(exp, N(uint64(ref[2])))
 		case int64(o) != ref[i]:
 			exp = append(exp, "?")
 		case o < 0:
